@@ -415,9 +415,92 @@ def rule_volume_extent(prog, fixture=False):
     return r
 
 
+# ---------------------------------------------------------------- R-C17-4
+def rule_window_consistency(prog, fixture=False):
+    r = RuleResult("R-C17-4", "in Volume::Access the value compared with the bound and the bound itself are in the "
+                   "same coordinates: with origin and length taken from the constructor, (bound as initialised) - "
+                   "(expression compared) = length - lba, so the last sector passed on is origin + length - 1",
+                   floor=0 if fixture else 1)
+    for fn in prog.functions.values():
+        if not fn.qn.endswith("Volume::Access::read_block"):
+            continue
+        ctor = [f for f in prog.functions.values() if f.cls == fn.cls and "inits" in f.raw and len(f.params) >= 2]
+        if len(ctor) != 1:
+            r.undecided.append("Volume::Access: constructor not found")
+            continue
+        ctor = ctor[0]
+        # member -> linear form over constructor parameters
+        minit = {}
+        for init in ctor.raw["inits"]:
+            if init.get("member") and init.get("init"):
+                lf = _linacc(ctor, init["init"])
+                if lf is not None:
+                    minit[init["member"]] = _norm(lf)
+        pfirst, plen = "param:%s" % ctor.params[0]["n"], "param:%s" % ctor.params[1]["n"]
+        lba = fn.params[0]
+
+        def form(e):
+            """linear form over {LBA, ctor params} of an expression in read_block"""
+            from ..flow import folded as _f
+            e = strip_all(e)
+            if e is None:
+                return None
+            v = _f(e)
+            if v is not None:
+                return {"": v}
+            if e.get("k") == "DeclRefExpr" and e.get("d") == lba["d"]:
+                return {"LBA": 1}
+            if e.get("k") == "MemberExpr" and e.get("n") in minit:
+                return dict(minit[e["n"]])
+            if e.get("k") == "BinaryOperator" and e.get("op") in ("+", "-"):
+                a, b = form(e["c"][0]), form(e["c"][1])
+                if a is None or b is None:
+                    return None
+                out = dict(a)
+                for kk, vv in b.items():
+                    out[kk] = out.get(kk, 0) + (vv if e["op"] == "+" else -vv)
+                return out
+            return None
+        g = Guards(fn)
+        fwd = [n for n in fn.walk() if n.get("k") == "CXXMemberCallExpr" and (strip(n["c"][0]) or {}).get("n") == "read_block"]
+        for n in fwd:
+            key = "%s::%s::window" % (fn.relfile(), fn.qn)
+            farg = form(n["c"][1])
+            if farg is None:
+                r.undecided.append("%s: forwarded index `%s` is not linear" % (fn.loc(n), show(n["c"][1])))
+                continue
+            # the tightest upper-bound fact  E < B  at the forward
+            verdict = None
+            for l, rel, rr in (g.cmps(n) or []):
+                if rel != "<":
+                    continue
+                fl, fb = form(l), form(rr)
+                if fl is None or fb is None or "LBA" not in fl:
+                    continue
+                # forwarded - compared expression, as a form: the forward is below (bound + that difference)
+                diff = {k_: farg.get(k_, 0) - fl.get(k_, 0) for k_ in set(farg) | set(fl)}
+                top = _norm({k_: fb.get(k_, 0) + diff.get(k_, 0) for k_ in set(fb) | set(diff)})
+                want = _norm({pfirst: 1, plen: 1})
+                ok = top == want
+                verdict = (ok, top)
+                if ok:
+                    break
+            if verdict is None:
+                r.undecided.append("%s: no upper-bound fact about the block number at the forward" % fn.loc(n))
+                continue
+            ok, top = verdict
+            r.add(key, fn.loc(n), ok, "forwards only sectors below first + count" if ok else
+                  "the forwarded sector number is only known to be below  %s , not below first sector + sector count: "
+                  "the bound and the value compared with it are in different coordinates (volume-relative vs "
+                  "absolute), so the window reaches past the end of the volume" %
+                  " + ".join("%s%s" % ("" if v_ == 1 else "%d*" % v_, k_.replace("param:", "")) for k_, v_ in sorted(top.items())))
+    return r
+
+
 def run(ctx):
     prog = ctx.prog("dfs", "N")
-    return [rule_bounds(prog), rule_body_read_failure(prog), rule_volume_extent(prog)]
+    return [rule_bounds(prog), rule_body_read_failure(prog), rule_volume_extent(prog),
+            rule_window_consistency(prog)]
 
 
 SELFTESTS = [
